@@ -59,6 +59,7 @@ def all_obligations(unit, res, entries):
     out = []
     for f in entries:
         out.extend(res[f.name].obligations.values())
+        out.extend(res[f.name].inv_obligations.values())
     best = {}
     for name, subs in unit.ctx_analyses.items():
         for sub in subs:
@@ -102,3 +103,33 @@ if __name__ == "__main__":
                         print("   unknown  %-22s %-28s %-12s L%s off=%s" % (o.inst.src_fn(), o.desc, o.kind, o.inst.line(), o.off))
             print("  field invariants:", {"%s.%s" % (mod.struct_cname(k[0]), mod.field_name(k[0], k[1])): v for k, v in unit.field.items()})
             print("  elem invariants:", {"%s.%s" % (mod.struct_cname(k[0]), mod.field_name(k[0], k[1])): v for k, v in unit.elem.items()})
+
+
+def generic_contracts(mod, fn):
+    """K0: a pointer-to-struct parameter points to (at least) one object of that struct type"""
+    c = {}
+    for p in fn.params:
+        if p.ty.endswith("*") and (p.ty.startswith("%struct") or p.ty.startswith("%union")) and not p.ty.endswith("**"):
+            sz = mod.type_size(p.ty[:-1])
+            if sz:
+                c[p.index] = sz
+    return c
+
+
+def analyse_generic_unit(mod, extra_contracts=None, given=None, candidates=None):
+    unit = Unit(mod)
+    unit.use_sym = True
+    unit.candidates = dict(candidates or {})
+    unit.given = dict(A.GIVEN_FIELDS)
+    if given:
+        unit.given.update(given)
+    unit.site_assumptions = A.site_assumptions()
+    entries = [f for f in mod.defined()]
+    contracts = {}
+    for f in entries:
+        contracts[f.name] = generic_contracts(mod, f)
+        if extra_contracts and f.cname in extra_contracts:
+            contracts[f.name].update(extra_contracts[f.cname])
+    unit.default_contracts = contracts
+    res = unit.analyse(entries, contracts)
+    return unit, entries, contracts, res
